@@ -48,6 +48,29 @@ fn scenario(name: &str, btree: bool, size: u8, n: usize, x: usize) -> Scenario {
 	s
 }
 
+/// ref-counted hash column with identity hashing: two keys equal in every bit the index stores (collision chain)
+fn chain_scenario(name: &str, n: usize, x: usize) -> Scenario {
+	let mut spec = ColSpec::rc();
+	spec.uniform = true;
+	let mut cfg = Config::new(vec![spec]);
+	cfg.salt = 0;
+	let ka = crate::props::c09::chain_key(0x2222, 1);
+	let kb = crate::props::c09::chain_key(0x2222, 2);
+	let set = |k: &B| (0u8, Op::Set(k.clone(), fval(k)));
+	let alpha: Vec<Tx> = vec![
+		vec![set(&ka), set(&kb)],
+		vec![set(&kb)],
+		vec![(0, Op::Ref(kb.clone()))],
+		vec![(0, Op::Del(kb.clone()))],
+		vec![(0, Op::Del(ka.clone()))],
+	];
+	let mut s = Scenario::new(name, cfg.clone(), alpha.clone());
+	s.universe = universe_of(&cfg, &alpha, &[]);
+	s.max_commits = n;
+	s.max_reopen = x;
+	s
+}
+
 pub fn scenarios(tier: &str) -> Vec<Scenario> {
 	if tier == "thorough" {
 		vec![
@@ -55,6 +78,7 @@ pub fn scenarios(tier: &str) -> Vec<Scenario> {
 			scenario("rc-hash/n3-full", false, 2, 3, 1),
 			scenario("rc-btree/n3-full", true, 2, 3, 1),
 			scenario("rc-hash/n2-x2", false, 2, 2, 2),
+			chain_scenario("rc-hash-collision-chain/n4", 4, 1),
 		]
 	} else {
 		vec![
@@ -62,6 +86,7 @@ pub fn scenarios(tier: &str) -> Vec<Scenario> {
 			scenario("rc-hash/n2-full", false, 2, 2, 1),
 			scenario("rc-btree/n3", true, 0, 3, 1),
 			scenario("rc-btree/n2-full", true, 2, 2, 1),
+			chain_scenario("rc-hash-collision-chain/n3", 3, 1),
 		]
 	}
 }
